@@ -31,6 +31,7 @@ type snapEv struct {
 func famConc(w *bufio.Writer, seed uint64, n int) error {
 	emit := func(v sx) { w.WriteString(sxString(v)); w.WriteByte('\n') }
 	defer runtime.GOMAXPROCS(runtime.GOMAXPROCS(0))
+	nhung := 0
 	for i := 0; i < n; i++ {
 		cs := seed*1000003 + uint64(i)
 		r := newRng(cs ^ 0x9a)
@@ -255,6 +256,14 @@ func famConc(w *bufio.Writer, seed uint64, n int) error {
 			L("procs", runtime.GOMAXPROCS(0))), L("universe", L())))
 		emit(L("conc", bs, sn, L("hung", hung), L("behind", len(behind), fmt.Sprintf("%q", fmt.Sprint(behind))), L("problems", fmt.Sprintf("%q", fmt.Sprint(problems))), L("expected", nw*perWriter)))
 		emit(L("end"))
+		if hung {
+			nhung++
+			if nhung >= 2 {
+				// calls that never return cost 30 s each: two are enough to report
+				fmt.Fprintf(os.Stderr, "director: giving up after %d hung cases\n", nhung)
+				break
+			}
+		}
 	}
 	return nil
 }
